@@ -583,7 +583,6 @@ func checkClearContext(c *Ctx) {
 	}
 }
 
-
 // fieldLoadAddr: for a value loaded from a struct field (the function stored in r.registerForDetector), the field
 // address it was loaded from; nil otherwise.
 func fieldLoadAddr(v ssa.Value) ssa.Value {
@@ -625,7 +624,6 @@ func derivesOnlyFromCalls(v ssa.Value, short string, depth int) bool {
 	}
 	return false
 }
-
 
 // checkExpiryClock: DecoyTimeout.registrationTime is written only where the record is created (shared by C10.9 and
 // C08.8: restarting the clock on a duplicate delivery keeps a registration past its lifetime, and past the session
